@@ -17,6 +17,7 @@ from engine.th import TH
 from spec.seq import N
 
 PROPERTY = "C21"
+HISTORY_LEMMAS = ['memory_history']  # lemmas/History.lean: one-cycle contracts => history-level statement (Lean 4)
 LEVEL = "proof"
 ASSUMPTIONS = [
     "caller obligation from the property statement: no two write ports address the same row in one cycle; addresses are below depth (argument layout range(depth))",
